@@ -580,6 +580,14 @@ SEEDED_MORE = [
     ("C17", "C17Gen", "src/enc/brotli_bit_stream.rs", "                    as i32\n                    != 0i32\n                {\n                    break 'break5;", "                    as i32\n                    > 1i32\n                {\n                    break 'break5;", False),
     ("C17", "C17Gen", "src/enc/brotli_bit_stream.rs", "            skip_some = 3;\n        }\n    }\n    BrotliWriteBits(2, skip_some, storage_ix, storage);", "            skip_some = 2;\n        }\n    }\n    BrotliWriteBits(2, skip_some, storage_ix, storage);", False),
     ("C17", "C17Gen", "src/enc/brotli_bit_stream.rs", "    for i in skip_some..codes_to_store {\n        let l = code_length_bitdepth[kStorageOrder[i as usize] as usize] as usize;", "    for idx in skip_some..codes_to_store {\n        let l = code_length_bitdepth[kStorageOrder[idx as usize] as usize] as usize;", True),
+    # C18vGen
+    ("C18v", "C18vGen", "src/enc/command.rs", "let copylen_code_delta = (copylen_code as i32 - copylen as i32) as i8;", "let copylen_code_delta = (copylen as i32 - copylen_code as i32) as i8;", False),
+    ("C18v", "C18vGen", "src/enc/command.rs", "            (self.dist_prefix_ & 0x3ff) == 0,\n            &mut self.cmd_prefix_,", "            (self.dist_prefix_ & 0x3ff) != 0,\n            &mut self.cmd_prefix_,", False),
+    ("C18v", "C18vGen", "src/enc/command.rs", "        self.insert_len_ = insertlen as u32;\n        let copylen_code_delta = (copylen_code as i32 - copylen as i32) as i8;", "        let copylen_code_delta = (copylen_code as i32 - copylen as i32) as i8;\n        self.insert_len_ = insertlen as u32;", True),
+    ("C18v", "C18vGen", "src/enc/brotli_bit_stream.rs", "        && (len >= kBlockLengthPrefixCode[code.wrapping_add(1) as usize].offset)", "        && (len > kBlockLengthPrefixCode[code.wrapping_add(1) as usize].offset)", False),
+    ("C18v", "C18vGen", "src/enc/brotli_bit_stream.rs", "    let bits: u64 = copyextraval << insnumextra | insextraval;", "    let bits: u64 = insextraval << insnumextra | copyextraval;", False),
+    ("C18v", "C18vGen", "src/enc/brotli_bit_stream.rs", "let delta: i32 = ((modifier | ((modifier & 0x40) << 1)) as u8) as i8 as i32;", "let delta: i32 = ((modifier | ((modifier & 0x40) << 1)) as u8) as i32;", False),
+    ("C18v", "C18vGen", "src/enc/brotli_bit_stream.rs", "    let bits: u64 = copyextraval << insnumextra | insextraval;\n    BrotliWriteBits(\n        insnumextra.wrapping_add(GetCopyExtra(copycode)) as u8,\n        bits,", "    let value: u64 = copyextraval << insnumextra | insextraval;\n    BrotliWriteBits(\n        insnumextra.wrapping_add(GetCopyExtra(copycode)) as u8,\n        value,", True),
 ]
 
 if __name__ == "__main__":
